@@ -161,6 +161,9 @@ async fn run_one(sc: &Value) -> Value {
                 let dst: SocketAddr = format!("10.0.0.1:{port}").parse().unwrap();
                 if c["hdr"] != "none" {
                     let hdr = if c["hdr"] == "v1" { proxy_v1(src, dst) } else { proxy_v2(src, dst) };
+                    if res.len() % 2 == 1 {
+                        t.cork();
+                    }
                     let _ = t.send_raw(&hdr).await;
                 }
                 let o = status_exchange(&mut t, None, Duration::from_millis(1200)).await;
@@ -194,6 +197,86 @@ async fn run_one(sc: &Value) -> Value {
             } else {
                 out["end"] = json!("nologin");
             }
+        }
+        "C06deadline" => {
+            // a client that stops at some point of the script: whatever it is owed arrives at once, then NOTHING until the server closes
+            let mut t = Tcp::connect(addr, None).await.unwrap();
+            match sc["behaviour"].as_str().unwrap_or("silent") {
+                "silent" => {}
+                "status-after-handshake" => {
+                    let _ = t.send_frame(0, &body_handshake(770, "h", 25565, 1)).await;
+                }
+                "status-no-ping" => {
+                    let _ = t.send_frame(0, &body_handshake(770, "h", 25565, 1)).await;
+                    let _ = t.send_frame(0, &[]).await;
+                }
+                "login-after-handshake" => {
+                    let _ = login(&mut t, 2, "X", 1, None, "handshake", Duration::from_millis(300)).await;
+                }
+                "login-after-loginstart" => {
+                    let _ = login(&mut t, 2, "X", 1, None, "loginstart", Duration::from_millis(300)).await;
+                }
+                "login-after-session" => {
+                    let _ = login(&mut t, 2, "X", 1, None, "session", Duration::from_millis(800)).await;
+                }
+                "transfer-after-session" => {
+                    let _ = login(&mut t, 3, "X", 1, None, "session", Duration::from_millis(800)).await;
+                }
+                _ => {
+                    let _ = login(&mut t, 2, "X", 1, None, "encreq", Duration::from_millis(800)).await;
+                }
+            }
+            // replies to what was sent
+            let mut owed = 0;
+            while let Recv::Frame(_, _) = t.recv(Duration::from_millis(400)).await {
+                owed += 1;
+            }
+            let base = t.bytes_received;
+            let timeout_ms = sc["timeoutS"].as_u64().unwrap_or(2) * 1000;
+            let eof = t.wait_eof(Duration::from_millis(timeout_ms + 2500)).await;
+            out["owedFrames"] = json!(owed);
+            out["closed"] = json!(eof.is_some());
+            out["lateBytes"] = json!(t.bytes_received - base);
+        }
+        "C08hdr" => {
+            // PROXY protocol on: the same well-formed client with its header and first frames cut into segments in different ways
+            let mut res = vec![];
+            for (hdrv, kind, cut) in [("v1", "status", "separate"), ("v1", "status", "coalesced"), ("v1", "status", "split"), ("v2", "status", "coalesced"),
+                                      ("v2", "status", "split"), ("v1", "login", "coalesced"), ("v2", "login", "coalesced"), ("v2", "login", "separate")] {
+                let mut t = Tcp::connect(addr, None).await.unwrap();
+                let src: SocketAddr = "203.0.113.10:40001".parse().unwrap();
+                let dst: SocketAddr = format!("10.0.0.1:{port}").parse().unwrap();
+                let hdr = if hdrv == "v1" { proxy_v1(src, dst) } else { proxy_v2(src, dst) };
+                match cut {
+                    "coalesced" => {
+                        t.cork();
+                        let _ = t.send_raw(&hdr).await;
+                    }
+                    "split" => {
+                        let _ = t.send_raw(&hdr[..hdr.len() / 2]).await;
+                        tokio::time::sleep(Duration::from_millis(60)).await;
+                        t.cork();
+                        let _ = t.send_raw(&hdr[hdr.len() / 2..]).await;
+                    }
+                    _ => {
+                        let _ = t.send_raw(&hdr).await;
+                        tokio::time::sleep(Duration::from_millis(60)).await;
+                    }
+                }
+                let outcome = if kind == "status" {
+                    status_exchange(&mut t, None, Duration::from_millis(1500)).await
+                } else {
+                    let o = login(&mut t, 2, "X", 1, None, "success", Duration::from_millis(1500)).await;
+                    if o.login_success.is_some() {
+                        let c = configuration(&mut t, true, true, Duration::from_millis(2000)).await;
+                        if c["end"] == "transfer" { "served".to_string() } else { format!("end:{}", c["end"].as_str().unwrap_or("?")) }
+                    } else {
+                        format!("stopped:{}", o.reached)
+                    }
+                };
+                res.push(json!({"hdr": hdrv, "kind": kind, "cut": cut, "outcome": outcome}));
+            }
+            out["results"] = json!(res);
         }
         "C13app" => {
             // one announced source address, connections at chosen moments against the configured limiter
